@@ -26,6 +26,7 @@ package main
 
 import (
 	"fmt"
+	"math"
 	"math/big"
 	"sort"
 	"strings"
@@ -36,7 +37,7 @@ import (
 func init() { register("C03", checkC03) }
 
 func checkC03(ctx *Ctx, r *Report, tier string) {
-	r.Explain = "Exactness of the closed-form primitives is decided cell by cell against the Euclidean reference formulas (sphere, circle, box 2D/3D incl. rounding, cylinder, line); for the combinators the statement names, a non-expansiveness calculus over the composed constructor∘Evaluate term shows that operands are combined only by Lipschitz-preserving operations and evaluated at non-expansive images of the query point. This is a structural necessary condition of 'never reports more than the true distance'; the cone, rounded extrusion, loft, the polygon's distance computation and the blends' constants are not decided."
+	r.Explain = "Exactness of the closed-form primitives is decided cell by cell against the Euclidean reference formulas (sphere, circle, box 2D/3D incl. rounding, cylinder, line); for the combinators the statement names, a non-expansiveness calculus over the composed constructor∘Evaluate term shows that operands are combined only by Lipschitz-preserving operations and evaluated at non-expansive images of the query point. This is a structural necessary condition of 'never reports more than the true distance'; the rounded extrusion and the loft are compared region by region with the distance to their inset solid on a grid of profile distances and heights; the cone, the polygon's distance computation and the blends' constants are not decided."
 	r.Trusted = []string{"go/types", "go/ssa", "compositional symbolic evaluator", "exact polynomial identity testing", "facts: p − clamp(p,a,b), (√(x²+y²), z), coordinate projections, translations and the polar sawtooth fold are non-expansive; min, max and the polynomial blends preserve the Lipschitz bound"}
 	r.Assume = []string{"operands are 1-Lipschitz (induction over expression trees)", "Transform / RotateUnion are used with rigid (orthonormal) matrices when exactness is expected"}
 	checkExactPrimitives(ctx, r)
@@ -46,6 +47,7 @@ func checkC03(ctx *Ctx, r *Report, tier string) {
 	// L2: the polynomial blend kernel is non-decreasing and 1-Lipschitz in each argument (a premise
 	// of L1 for blended combinators; rule shared with C02 M11)
 	checkPolyKernel(ctx, r, "L2")
+	checkRoundedExtrusion(ctx, r, "L3")
 	r.expectControl("L1", "verifCtlScaleNoDivide3D")
 }
 
@@ -54,7 +56,7 @@ func composeCtor(ctx *Ctx, name string, opaque ...string) (*Term, *ssa.Function,
 	if fn == nil {
 		return nil, nil, false
 	}
-	alts, _ := ctorAlts(ctx, fn, opaque...)
+	alts, _ := ctorAltsFollow(ctx, fn, opaque...)
 	if len(alts) == 0 {
 		return nil, fn, false
 	}
@@ -449,6 +451,22 @@ func (lc *lipCtx) nonExpansiveArgs(args []*Term) (bool, string) {
 			}
 		}
 	}
+	// (d') c·p with one non-constant factor c on every axis: a uniform scaling of the
+	// point whose result is not rescaled (the rescaled form k·f(p/k) is recognised at
+	// the product above this call and never gets here)
+	if len(args) >= 2 {
+		comps := []string{"p.X", "p.Y", "p.Z"}
+		c := substAtoms(args[0], map[string]*Term{"p.X": K(1)})
+		uniform := !dependsOnP(c)
+		for i, a := range args {
+			if i >= len(comps) || !uniform || !equalRat(a, Mul(c, A(comps[i]))) {
+				uniform = false
+			}
+		}
+		if uniform && !equalRat(c, K(1)) && !equalRat(c, K(-1)) {
+			return false, "operand evaluated at the uniformly scaled point " + shortKey(c.Key(), 80) + "·p and the distance is not scaled back"
+		}
+	}
 	// (e) affine in p with parameter / loop-carried matrix entries
 	aff := true
 	for _, a := range args {
@@ -625,7 +643,7 @@ func checkNonExpansive(ctx *Ctx, r *Report) {
 			}
 			continue
 		}
-		alts, _ := ctorAlts(ctx, fn, "SawTooth", "Clamp")
+		alts, _ := ctorAltsFollow(ctx, fn, "SawTooth", "Clamp")
 		if len(alts) == 0 {
 			r.undecided("L1", name, fn.Pos(), "constructor builds nothing")
 			continue
@@ -775,4 +793,94 @@ func checkConeInset(ctx *Ctx, r *Report) {
 		name := []string{"base", "top"}[i]
 		r.check("E2", "Cone3D|inset-"+name+"-radius", fn.Pos(), okAll && n >= 3, fmt.Sprintf("inset %s radius + round·n lies on the nominal slope line (%d exact witnesses);%s", name, n, detail))
 	}
+}
+
+// checkRoundedExtrusion (L3): the rounded extrusions (ExtrudeRounded3D, Loft3D) combine the
+// profile distance a and the axial distance b = |z| − H (H the inset half height) region by
+// region. The distance to the inset solid {a ≤ 0, b ≤ 0} is
+//
+//	b > 0, a < 0:  b          b > 0, a ≥ 0:  √(a² + b²)
+//	b ≤ 0, a < 0:  max(a, b)  b ≤ 0, a ≥ 0:  a
+//
+// and the result is that minus the rounding radius. A region that returns anything larger in
+// magnitude (a alone inside a flat plate, say) over-estimates the distance to the caps. The
+// composite of constructor and Evaluate is evaluated in closed form with the profile distance
+// replaced by a constant, on a grid of (a, z) that has points in each region and on both sides of
+// each boundary, and compared with the formula above.
+func checkRoundedExtrusion(ctx *Ctx, r *Report, rule string) {
+	for _, name := range []string{"ExtrudeRounded3D", "Loft3D"} {
+		fn := ctx.ssaFunc("sdf", name)
+		if fn == nil {
+			r.undecided(rule, name, 0, "constructor not found")
+			continue
+		}
+		alts, _ := ctorAltsFollow(ctx, fn)
+		var t *Term
+		nRounded := 0
+		for _, ca := range alts {
+			if !strings.Contains(ca.typ.String(), "Rounded") && !strings.Contains(ca.typ.String(), "Loft") {
+				continue // the round == 0 alternative builds a plain extrusion (M-spec Extrude3D)
+			}
+			res, _, err := composeMethod(ctx, ca, "Evaluate")
+			if tt, _ := res.(*Term); err == nil && tt != nil {
+				t = tt
+				nRounded++
+			}
+		}
+		if nRounded != 1 {
+			r.undecided(rule, name, fn.Pos(), fmt.Sprintf("%d rounded alternatives compose with Evaluate", nRounded))
+			continue
+		}
+		np := fn.Signature.Params().Len()
+		hN, rN := paramName(fn, np-2), paramName(fn, np-1)
+		bad := ""
+		n := 0
+		regions := map[string]bool{}
+		for _, a := range []float64{-7, -2.5, -0.25, 0.25, 3} {
+			body := rebuild(t, func(x *Term) *Term {
+				if x.Op == "call" && strings.HasSuffix(x.S, ".Evaluate") {
+					return KR(new(big.Rat).SetFloat64(a))
+				}
+				return nil
+			})
+			for _, z := range []float64{-9, -4.5, -3.75, -1, 0, 0.5, 2, 3.75, 4.5, 6} {
+				// height 10, round 1: inset half height H = 4
+				got, ok := evalFloat(body, map[string]float64{"p.X": 0.5, "p.Y": -0.25, "p.Z": z, hN: 10, rN: 1})
+				if !ok {
+					r.undecided(rule, name, fn.Pos(), "the composite is not a closed form of (a, z): "+shortKey(body.Key(), 200))
+					bad = "-"
+					break
+				}
+				b := math.Abs(z) - 4
+				var want float64
+				switch {
+				case b > 0 && a < 0:
+					want = b
+					regions["cap"] = true
+				case b > 0:
+					want = math.Sqrt(a*a + b*b)
+					regions["rim"] = true
+				case a < 0:
+					want = math.Max(a, b)
+					regions["interior"] = true
+				default:
+					want = a
+					regions["wall"] = true
+				}
+				want -= 1
+				n++
+				if math.Abs(got-want) > 1e-12 && len(bad) < 300 {
+					bad += fmt.Sprintf(" a=%g z=%g (H=4, round=1): composite %g, distance to the rounded solid %g;", a, z, got, want)
+				}
+			}
+			if bad == "-" {
+				break
+			}
+		}
+		if bad == "-" {
+			continue
+		}
+		r.check(rule, name+"|region-formula", fn.Pos(), bad == "" && len(regions) == 4, fmt.Sprintf("%d (a, z) points over %d regions;%s", n, len(regions), bad))
+	}
+	r.floor(rule, 2)
 }
